@@ -1015,6 +1015,75 @@ pub fn run_c10(tier: Tier) -> i32 {
     });
     fams.push(json!({"family": "game histories over a shuffle alphabet x continuations, go depth 1/2 searchmoves m", "histories": jobs.len(), "engine_queries": queries.load(Ordering::Relaxed), "queries_whose_move_completes_a_threefold": threefold_queries.load(Ordering::Relaxed), "skipped_root_already_threefold": skipped_root_threefold.load(Ordering::Relaxed), "secs": t0.elapsed().as_secs_f64()}));
 
+    // ---- (a2) the history belongs to the position command that supplied it: after a game given as
+    // `position <base> moves ...` the same engine gets `position fen <a position of that game>` with
+    // no move list (what a GUI sends when the user switches to analysis, or after ucinewgame). The
+    // clocks of the FEN are the true ones, so the reversible window reaches back over plies the new
+    // command said nothing about; nothing from the earlier command may be counted there.
+    let t0 = Instant::now();
+    let leak_jobs: Vec<&(Pos, Vec<Mv>)> = {
+        let full: Vec<&(Pos, Vec<Mv>)> = jobs.iter().filter(|(_, h)| h.len() >= 6).collect();
+        let want = if tier == Tier::Quick { 1_500 } else { 20_000 };
+        let step = (full.len() / want).max(1);
+        full.into_iter().step_by(step).collect()
+    };
+    let leak_n = AtomicU64::new(0);
+    let leak_would_repeat = AtomicU64::new(0);
+    par_map_fine(&leak_jobs, |(base, hist)| {
+        let mut line: Vec<Pos> = vec![base.clone()];
+        for m in hist {
+            let q = line.last().unwrap().make(m);
+            line.push(q);
+        }
+        let moves: Vec<String> = hist.iter().map(|m| m.uci()).collect();
+        for (cut, newgame, searched_first) in [(hist.len() - 1, false, false), (hist.len() - 2, true, true), (hist.len(), true, false)] {
+            let root = line[cut].clone();
+            if !root.has_legal_move() {
+                continue;
+            }
+            let mut sess = Session::new(false);
+            sess.line(&position_line(base, &moves));
+            if searched_first {
+                let _ = run_go(&mut sess, "go depth 1", Plan::virtual_rate(1000), &no_actions);
+            }
+            if newgame {
+                sess.line("ucinewgame");
+            }
+            for m in shuffle_moves(&root).iter().take(5) {
+                leak_n.fetch_add(1, Ordering::Relaxed);
+                let out = search_depth(&mut sess, &root, &[], 1, &format!(" searchmoves {}", m.uci()));
+                let case = |extra: Value| json!({"kind": "history_leak", "base": base.to_fen(), "history": moves, "cut": cut, "ucinewgame_between": newgame, "searched_first": searched_first, "searchmove": m.uci(), "depth": 1, "detail": extra});
+                if let Some(pr) = &out.problem {
+                    rep.report(format!("no_answer:{}", short(pr)), case(json!({"problem": pr})));
+                    return;
+                }
+                // would the earlier game have made this a third occurrence?
+                let mut with_old = line[..=cut].to_vec();
+                with_old.push(root.make(m));
+                if RefSearch::occurrences(&with_old) >= 3 {
+                    leak_would_repeat.fetch_add(1, Ordering::Relaxed);
+                }
+                let eval = |q: &Pos, l: bool| eval_hook(q, l);
+                let mut rs = RefSearch::new(&eval);
+                rs.repetition = Some(RepRule { draw, contempt });
+                let want = rs.root(&root, 1, Some(&[m.uci()])).1[0].1;
+                let got = match out.score {
+                    Some(Score::Centipawn { score }) => Some(score),
+                    _ => None,
+                };
+                if !verif::is_checkmate_value(want) && got != Some(want) {
+                    let sig = if got == Some(draw + contempt) || got == Some(draw - contempt) { "history_of_an_earlier_position_command_counted" } else { "value_differs_after_an_earlier_position_command" };
+                    rep.report(format!("{}:depth1", sig), case(json!({"expected": want, "actual": score_json(&out.score), "root": root.to_fen()})));
+                }
+            }
+            sess.quit();
+        }
+    });
+    fams.push(json!({"family": "position fen <a position of the game just given> without moves, after that game on the same engine (with/without ucinewgame, with/without a search in between): go depth 1 searchmoves m against the reference without history", "histories": leak_jobs.len(), "engine_queries": leak_n.load(Ordering::Relaxed), "queries_that_the_earlier_history_would_have_made_a_third_occurrence": leak_would_repeat.load(Ordering::Relaxed), "secs": t0.elapsed().as_secs_f64()}));
+    if leak_would_repeat.load(Ordering::Relaxed) == 0 {
+        rep.machinery("vacuous: no leak query would have been a repetition under the earlier history");
+    }
+
     // ---- (a3) deeper lines: positions in which the weaker side has a forcing (checking) cycle, with a
     // game history in which the cycle was already played once; go depth 4 / 5, whole root. The line
     // that repeats is then the principal one, so the root score shows how its end node was valued.
@@ -1367,6 +1436,37 @@ pub fn replay(id: &str, case: &Value) -> i32 {
         ("C10", "game") => {
             let moves: Vec<String> = case["history"].as_array().map(|a| a.iter().map(|v| v.as_str().unwrap_or("").to_string()).collect()).unwrap_or_default();
             c10_game(&rep, &p, depth, 0, Some(&moves));
+        }
+        ("C10", "history_leak") => {
+            let moves: Vec<String> = case["history"].as_array().map(|a| a.iter().map(|v| v.as_str().unwrap_or("").to_string()).collect()).unwrap_or_default();
+            let cut = case["cut"].as_u64().unwrap_or(0) as usize;
+            let sm = case["searchmove"].as_str().unwrap_or("").to_string();
+            let mut line = vec![p.clone()];
+            for u in &moves {
+                let q = line.last().unwrap().clone();
+                match q.find_legal_uci(u) {
+                    Some(m) => line.push(q.make(&m)),
+                    None => return 2,
+                }
+            }
+            let root = line[cut.min(line.len() - 1)].clone();
+            let mut sess = Session::new(false);
+            sess.line(&position_line(&p, &moves));
+            if case["searched_first"].as_bool().unwrap_or(false) {
+                let _ = run_go(&mut sess, "go depth 1", Plan::virtual_rate(1000), &no_actions);
+            }
+            if case["ucinewgame_between"].as_bool().unwrap_or(false) {
+                sess.line("ucinewgame");
+            }
+            let out = search_depth(&mut sess, &root, &[], 1, &format!(" searchmoves {}", sm));
+            sess.quit();
+            let mut fresh = Session::new(false);
+            let f = search_depth(&mut fresh, &root, &[], 1, &format!(" searchmoves {}", sm));
+            fresh.quit();
+            println!("after the earlier game: {:?}; fresh engine: {:?}", out.score, f.score);
+            if out.score != f.score {
+                rep.report("history_of_an_earlier_position_command_counted".to_string(), json!({"kind": "history_leak", "base": p.to_fen(), "history": moves, "cut": cut, "searchmove": sm}));
+            }
         }
         ("C10", "cycle") => {
             let moves: Vec<String> = case["history"].as_array().map(|a| a.iter().map(|v| v.as_str().unwrap_or("").to_string()).collect()).unwrap_or_default();
